@@ -78,7 +78,7 @@ RULE = (
 )
 SCOPE = {
     "quick": {"NSEQ": 160, "NBAND": 80, "NR": 5, "NR2": 3, "POOL": 3, "NSECOND": 2},
-    "thorough": {"NSEQ": 800, "NBAND": 400, "NR": 8, "NR2": 4, "POOL": 4, "NSECOND": 3},
+    "thorough": {"NSEQ": 2400, "NBAND": 1200, "NR": 8, "NR2": 4, "POOL": 4, "NSECOND": 3},
 }
 FLOOR = {"quick": 1500, "thorough": 4000}
 REQUIRED_MONITORS = ["pos.members", "pos.bounds", "pos.refusal", "id.members", "member.dict", "member.sequence"]
